@@ -98,10 +98,9 @@ public:
 
     void bvisit(const Transpose &x)
     {
-        // Shift order to transpose(conj(A))
-        auto arg = x.get_arg();
-        auto conj = make_rcp<const ConjugateMatrix>(arg);
-        conjugate_ = make_rcp<const Transpose>(conj);
+        // Shift order to transpose(conj(A)); conj(A) may simplify
+        x.get_arg()->accept(*this);
+        conjugate_ = transpose(conjugate_);
     }
 
     void bvisit(const MatrixAdd &x)
